@@ -79,6 +79,17 @@ class SymMethod:
         self.name = name
 
 
+def lin_indicator(var, n, vals):
+    """0/1 term for var in vals as a linear combination of the atoms If(var == k, 1, 0)"""
+    vals = sorted(vals)
+    if len(vals) <= n - len(vals):
+        ts = [z3.If(var == k, 1, 0) for k in vals]
+        return z3.Sum(ts) if len(ts) > 1 else (ts[0] if ts else z3.IntVal(0))
+    comp = [k for k in range(n) if k not in set(vals)]
+    ts = [z3.If(var == k, 1, 0) for k in comp]
+    return 1 - (z3.Sum(ts) if len(ts) > 1 else (ts[0] if ts else z3.IntVal(0)))
+
+
 class Interp:
     def __init__(self, source_roots=("/repo/",), stubs=None, max_paths=200000, force_interp=(),
                  loop_bound=2000, solver_timeout_ms=120000):
@@ -101,6 +112,14 @@ class Interp:
         self.encoded = set()
         self.notes = set()
         self.fd_add_limit = 8
+        self.snapshot_hook = None  # callable() -> data captured at the moment a side raise is recorded (attached to the exception)
+        self.side_raises = True    # uncaught raises under a guard become side outcomes instead of forks (see raise_if)
+        self.try_depth = 0
+        self.merge_guards = []
+        self.deferred = []
+        self.side = []
+        self.domains = {}          # input variable name -> (z3 var, domain size) for finite-domain character variables
+        self._canon_cache = {}
         self.lazy = False
         self.footprint = None     # when a dict: records attribute reads/writes {"r": set, "w": set}
         self.no_merge = False
@@ -174,6 +193,43 @@ class Interp:
         self.assume(g if choice else z3.Not(g))
         return choice
 
+    def raise_if(self, g, exc):
+        """the program raises `exc` when g holds.  Returns normally when execution continues under not g.
+        Uncaught raises (no enclosing try in the interpreted stack) are recorded as side outcomes with their exact
+        path condition, and not g is assumed for the rest of the path -- no re-execution is needed for them."""
+        if isinstance(g, bool):
+            if g:
+                raise exc
+            return
+        if not self.feasible(g):
+            return
+        if self.side_raises and self.try_depth == 0:
+            if not self.feasible(z3.Not(g)):
+                raise exc          # every remaining input raises here: this *is* the path's outcome
+            self._snap(exc.exc)
+            self.side.append((list(self.pc) + list(self.deferred) + [zbool(x) for x in self.merge_guards] + [g], ("raise", exc.exc)))
+            if self.in_merge == 0:
+                self.assume(z3.Not(g))
+            else:
+                self.solver.add(z3.Not(g))
+                self.deferred.append(z3.Not(z3.And(*([zbool(x) for x in self.merge_guards] + [g]))))
+            return
+        if self.branch(g):
+            raise exc
+
+    def _snap(self, exc):
+        if self.snapshot_hook is not None:
+            try:
+                exc._symx_snapshot = self.snapshot_hook()
+            except Exception:
+                pass
+
+    def flush_deferred(self):
+        if self.in_merge == 0 and self.deferred:
+            d, self.deferred = self.deferred, []
+            for a in d:
+                self.assume(a)
+
     def concretize(self, v, what="value"):
         if isinstance(v, (Sym, FD)):
             pass
@@ -217,6 +273,10 @@ class Interp:
             self.pos = 0
             self.undo = None
             self.in_merge = 0
+            self.try_depth = 0
+            self.merge_guards = []
+            self.deferred = []
+            self.side = []
             self.solver.push()
             try:
                 try:
@@ -234,6 +294,19 @@ class Interp:
                     yield list(self.pc), res
             finally:
                 self.solver.pop()
+            # side outcomes: guarded uncaught raises recorded while executing this path
+            for spc, sres in self.side:
+                self.solver.push()
+                try:
+                    for g in spc:
+                        self.solver.add(g)
+                    self.pc = list(spc)
+                    if self.check() == z3.sat:
+                        self.stats["paths"] += 1
+                        yield list(spc), sres
+                finally:
+                    self.solver.pop()
+            self.side = []
             d = self.decisions
             while d and d[-1] is False:
                 d.pop()
@@ -265,7 +338,9 @@ class Interp:
 
     def set_item(self, cont, key, val):
         if isinstance(cont, SymArray):
-            cont = cont.items
+            if isinstance(key, int) and key < 0:
+                key += len(cont)
+            cont, key = cont.storage(key)
         if isinstance(cont, dict):
             self.log(("item", cont, key, cont.get(key, MISSING)))
         else:
@@ -486,13 +561,68 @@ class Interp:
             return int(t)
         return Sym(z3.If(t, z3.IntVal(1), z3.IntVal(0)), "int")
 
+    def canon_vals(self, g):
+        """(z3 var, domain size, sorted list of values making g true) for a guard over a single finite-domain input variable"""
+        if isinstance(g, bool):
+            return None
+        names = z3_consts(g)
+        if len(names) != 1:
+            return None
+        (name,) = names
+        dom = self.domains.get(name)
+        if dom is None:
+            return None
+        k = g.get_id()
+        hit = self._canon_cache.get(("v", k))
+        if hit is not None:
+            return hit[1]
+        var, n = dom
+        vals = [i for i in range(n) if z3.is_true(z3.simplify(z3.substitute(g, (var, z3.IntVal(i)))))]
+        r = (var, n, vals)
+        self._canon_cache[("v", k)] = (g, r)
+        return r
+
+    def canon(self, g):
+        """canonical form of a guard over a single finite-domain input variable: Or(v == k ...) with k ascending.
+        Makes cardinality terms of the implementation syntactically equal to those of specifications/constraints."""
+        if isinstance(g, bool):
+            return g
+        names = z3_consts(g)
+        if len(names) != 1:
+            return g
+        (name,) = names
+        dom = self.domains.get(name)
+        if dom is None:
+            return g
+        k = g.get_id()
+        hit = self._canon_cache.get(k)
+        if hit is not None:
+            return hit[1]
+        var, n = dom
+        vals = [i for i in range(n) if z3.is_true(z3.simplify(z3.substitute(g, (var, z3.IntVal(i)))))]
+        if not vals:
+            r = False
+        elif len(vals) == n:
+            r = True
+        else:
+            r = z3.Or(*[var == i for i in vals]) if len(vals) > 1 else var == vals[0]
+        self._canon_cache[k] = (g, r)
+        return r
+
     def count_true(self, truths):
         """number of true among truth values -> int | FD | Sym"""
+        truths = [self.canon(t) for t in truths]
         base = sum(1 for t in truths if t is True)
         symb = [t for t in truths if not isinstance(t, bool)]
         if not symb:
             return base
-        tot = z3.Sum([z3.If(t, 1, 0) for t in symb]) if len(symb) > 1 else z3.If(symb[0], 1, 0)
+        # linear indicator terms over the per-value atoms If(v == k, 1, 0) of each finite-domain input variable
+        # (all class counts then are linear combinations of the same atoms; sum_k If(v == k,1,0) == 1 is asserted with the input)
+        terms = []
+        for t in symb:
+            cv = self.canon_vals(t)
+            terms.append(lin_indicator(*cv) if cv is not None else z3.If(t, 1, 0))
+        tot = z3.Sum(terms) if len(terms) > 1 else terms[0]
         if len(symb) <= 40:
             return self.prune(FD([(tot == k, base + k) for k in range(len(symb) + 1)]))
         return Sym(tot + base, "int")
@@ -538,6 +668,29 @@ class Interp:
             else:
                 tot = self.binop(ast.Add(), tot, mk_fd([(g, len(v)) for g, v in p.cases]))
         return tot
+
+    def str_eq_parts(self, a, b):
+        """list of truth values whose conjunction is a == b (piecewise); [False] when certainly different"""
+        if isinstance(a, str) and isinstance(b, str):
+            return [a == b]
+        A = a if isinstance(a, SymStr) else SymStr([a])
+        B = b if isinstance(b, SymStr) else SymStr([b])
+        ua, ub = A.uniform_chars(), B.uniform_chars()
+        if ua is not None and ub is not None:
+            if len(ua) != len(ub):
+                return [False]
+            return [self.binop(ast.Eq(), x, y) for x, y in zip(ua, ub)]
+        pa, pb = self._align(A.pieces, B.pieces)
+        if pa is None:
+            raise Unsupported("comparison of strings with different piece structure")
+        out = []
+        for x, y in zip(pa, pb):
+            if isinstance(x, str) and isinstance(y, str):
+                if x != y:
+                    return [False]
+            else:
+                out.append(self.fd_binop(ast.Eq, x, y))
+        return out or [True]
 
     def str_eq(self, a, b):
         """truth value of a == b for str / SymStr"""
@@ -726,10 +879,7 @@ class Interp:
                 try:
                     out.append((g, pyscalar(op(va, vb))))
                 except Exception as ex:
-                    if not self.feasible(g):
-                        continue
-                    if self.branch(g):
-                        raise PyRaise(ex)
+                    self.raise_if(g, PyRaise(ex))
         return mk_fd(out)
 
     def binop(self, op, a, b):
@@ -893,9 +1043,7 @@ class Interp:
             return Sym(z3.fpMul(RNE, x, y), "fp")
         if t is ast.Div:
             zero = z3.fpIsZero(y)
-            if self.feasible(zero):
-                if self.branch(zero):
-                    raise PyRaise(ZeroDivisionError("float division by zero"))
+            self.raise_if(zero, PyRaise(ZeroDivisionError("float division by zero")))
             return Sym(z3.fpDiv(RNE, x, y), "fp")
         if t is ast.Pow:
             bz = z3.simplify(b.z) if b.kind in ("int", "real") else None
@@ -946,9 +1094,7 @@ class Interp:
                     if ys.as_fraction() == 0:
                         raise PyRaise(ZeroDivisionError("division by zero"))
                 else:
-                    if self.feasible(y == 0):
-                        if self.branch(y == 0):
-                            raise PyRaise(ZeroDivisionError("division by zero"))
+                    self.raise_if(y == 0, PyRaise(ZeroDivisionError("division by zero")))
                 return Sym(x / y, "real")
             raise Unsupported("real op %s" % t.__name__)
         x, y = as_int(a), as_int(b)
@@ -1418,6 +1564,22 @@ class Interp:
             raise Unsupported("assign target %s" % type(t).__name__)
 
     def store_subscript(self, c, k, v):
+        if isinstance(c, SymArray) and isinstance(k, SymArray):
+            # boolean-mask assignment a[mask] = scalar
+            if len(k) != len(c):
+                raise PyRaise(IndexError("boolean index did not match indexed array"))
+            if isinstance(v, (SymArray, list, tuple)):
+                raise Unsupported("mask assignment of an array value")
+            if c.isfloat and isinstance(v, (int, bool)) and not isinstance(v, float):
+                v = float(v)
+            for i, mk in enumerate(k.items):
+                t = self.truth(mk)
+                if isinstance(t, bool):
+                    if t:
+                        self.set_item(c, i, v)
+                else:
+                    self.set_item(c, i, self.merge(t, v, c.items[i]))
+            return
         if isinstance(c, SymDict):
             if is_sym(k):
                 raise Unsupported("symbolic key store into guarded dict")
@@ -1442,9 +1604,7 @@ class Interp:
             if isinstance(c, (list, SymArray)):
                 n = len(c)
                 inr = z3.And(k.z >= -n, k.z < n)
-                if self.feasible(z3.Not(inr)):
-                    if self.branch(z3.Not(inr)):
-                        raise PyRaise(IndexError("list assignment index out of range"))
+                self.raise_if(z3.Not(inr), PyRaise(IndexError("list assignment index out of range")))
                 items = c.items if isinstance(c, SymArray) else c
                 for i in range(n):
                     g = z3.Or(k.z == i, k.z == i - n)
@@ -1480,8 +1640,12 @@ class Interp:
             return self.exec_block(s.orelse, fr)
         if not ft and not ff:
             raise PathInfeasible()
-        if not self.no_merge and self.try_merge(c, s.body, s.orelse, fr):
-            return
+        if not self.no_merge:
+            try:
+                if self.try_merge(c, s.body, s.orelse, fr):
+                    return
+            finally:
+                self.flush_deferred()
         b = self.branch(c)
         return self.exec_block(s.body if b else s.orelse, fr)
 
@@ -1493,13 +1657,20 @@ class Interp:
         self.in_merge += 1
         self.solver.push()
         self.solver.add(g)
+        self.merge_guards.append(g)
         npc = len(self.pc)
+        nside, ndef = len(self.side), len(self.deferred)
         ok = True
         try:
             self.exec_block(body, fr)
         except ReturnEx as r:
             ok = ("return", r.v)
-        except (BreakEx, ContinueEx, PyRaise, MergeAbort) as ex:
+        except PyRaise as ex:
+            if self.side_raises and self.try_depth == 0:
+                ok = ("vacuous", ex)
+            else:
+                ok = False
+        except (BreakEx, ContinueEx, MergeAbort) as ex:
             if DEBUG:
                 print("  merge abort:", type(ex).__name__, ex)
             ok = False
@@ -1507,22 +1678,44 @@ class Interp:
             ok = False
         finally:
             self.solver.pop()
+            self.merge_guards.pop()
             del self.pc[npc:]
             self.in_merge -= 1
             self.undo = outer
+        if ok is False or (isinstance(ok, tuple) and ok[0] == "vacuous"):
+            # nothing recorded during an abandoned / always-raising attempt survives (it is re-derived when re-executed)
+            del self.side[nside:]
+            del self.deferred[ndef:]
         finals = None
-        if ok:
+        if ok and not (isinstance(ok, tuple) and ok[0] == "vacuous"):
             locs = self.written_locations(log, since)
             finals = {k: (e, self.read_loc(e)) for k, e in locs.items()}
         self.rollback(log)
         return ok, finals
+
+    def exclude_branch(self, g, exc, live, fr):
+        """branch under g always ends in the uncaught exception exc: record it as a side outcome, assume not g, run `live`"""
+        self._snap(exc.exc)
+        self.side.append((list(self.pc) + list(self.deferred) + [zbool(x) for x in self.merge_guards] + [g], ("raise", exc.exc)))
+        ng = z3.Not(g)
+        if self.in_merge == 0:
+            self.assume(ng)
+        else:
+            self.solver.add(ng)      # NB: inside an enclosing logged branch: its solver scope is popped with it
+            self.deferred.append(z3.Not(z3.And(*([zbool(x) for x in self.merge_guards] + [g]))))
+        self.exec_block(live, fr)
+        return True
 
     def try_merge(self, g, body, orelse, fr):
         ok1, f1 = self.run_branch_logged(g, body, fr)
         if not ok1:
             self.stats["merge_aborts"] += 1
             return False
+        if isinstance(ok1, tuple) and ok1[0] == "vacuous":
+            return self.exclude_branch(g, ok1[1], orelse, fr)
         ok2, f2 = self.run_branch_logged(z3.Not(g), orelse, fr)
+        if isinstance(ok2, tuple) and ok2[0] == "vacuous":
+            return self.exclude_branch(z3.Not(g), ok2[1], body, fr)
         if not ok2 or (ok1 is True) != (ok2 is True):
             self.stats["merge_aborts"] += 1
             return False
@@ -1596,8 +1789,12 @@ class Interp:
             return
         if not ft and not ff:
             raise PathInfeasible()
-        if not self.no_merge and self.try_merge(c, body, [], fr):
-            return
+        if not self.no_merge:
+            try:
+                if self.try_merge(c, body, [], fr):
+                    return
+            finally:
+                self.flush_deferred()
         if self.branch(c):
             return self.exec_block(body, fr)
 
@@ -1664,7 +1861,11 @@ class Interp:
     def st_Try(self, s, fr):
         try:
             try:
-                self.exec_block(s.body, fr)
+                self.try_depth += 1
+                try:
+                    self.exec_block(s.body, fr)
+                finally:
+                    self.try_depth -= 1
             except PyRaise as e:
                 for h in s.handlers:
                     t = self.eval(h.type, fr) if h.type else BaseException
@@ -1957,9 +2158,7 @@ class Interp:
                 n = len(c)
                 cases = [(z3.Or(k.z == i, k.z == i - n), i) for i in range(n)]
             rest = z3.Not(z3.Or(*[g for g, _ in cases])) if cases else TRUE
-            if self.feasible(rest):
-                if self.branch(rest):
-                    raise PyRaise((KeyError if isinstance(c, dict) else IndexError)("index out of range"))
+            self.raise_if(rest, PyRaise((KeyError if isinstance(c, dict) else IndexError)("index out of range")))
             pk = self.prune(FD(cases)) if len(cases) > 1 else cases[0][1]
             if not isinstance(pk, FD):
                 return c[pk]
@@ -2000,9 +2199,7 @@ class Interp:
                 cases.append((z3.And(cond, g2) if g2 is not TRUE else cond, vv))
         total = z3.Sum([z3.If(b, 1, 0) for b in gs]) if len(gs) > 1 else (z3.If(gs[0], 1, 0) if gs else z3.IntVal(0))
         short = total <= k
-        if self.feasible(short):
-            if self.branch(short):
-                raise PyRaise(IndexError("list index out of range"))
+        self.raise_if(short, PyRaise(IndexError("list index out of range")))
         if not cases:
             raise PathInfeasible()
         return self.prune(mk_fd(cases)) if True else None
@@ -2016,7 +2213,7 @@ class Interp:
             if isinstance(c, tuple) and len(c) == 2 and c[0] == "__vstack__":
                 c = c[1]
             if isinstance(c, SymArray):
-                return SymArray(c.items[lo:hi:st], c.isfloat)
+                return c.view(slice(lo, hi, st))      # numpy: basic slicing returns a view
             if isinstance(c, SymStr):
                 return mk_str(self.chars(c)[lo:hi:st])
             if isinstance(c, GList):
@@ -2196,10 +2393,7 @@ def mk_fd_apply(I, f, fd):
         try:
             rs.append((g, f(v)))
         except PyRaise as ex:
-            if not I.feasible(g):
-                continue
-            if I.branch(g):
-                raise
+            I.raise_if(g, ex)
     if not rs:
         raise PathInfeasible()
     if not any(is_sym(r) or isinstance(r, (SymArray, SymStr, list, dict, GList, tuple)) for _, r in rs):
